@@ -965,9 +965,148 @@ class IncludeScope(Stream):
                 yield self.mk("\n".join(lines[:j] + lines[j + 1:]), case["mode"], case["cwd"])
 
 
+class IncludeRegistry(Stream):
+    """Includes under a customized parse (converter_registry=R): the string target of an 'include scope', an included file and
+    the root are all parsed with R, so the expanded tree equals the tree of the hand-inlined text parsed with R - for a type
+    that only R knows and for a standard type name that R re-defines.  Oracle only; self-contained (own module and files)."""
+    name = "include_registry"
+    cluster = "Include"
+    impl_timeout = 10.0
+    TYPES = ["scaled", "int", "scaled(factor=3)", "str", "float"]
+
+    def __init__(self, ctx):
+        super().__init__(ctx)
+        self.fp = import_freephil()
+
+    def corpus(self):
+        return [{"ty": "scaled", "via": "scope", "where": "top"}, {"ty": "int", "via": "scope", "where": "top"},
+                {"ty": "scaled", "via": "file", "where": "nested"}, {"ty": "int", "via": "scope_sub", "where": "nested"}]
+
+    def cases(self, rng, tier):
+        for _ in range(30 if tier == "quick" else 300):
+            yield {"ty": rng.choice(self.TYPES), "via": rng.choice(["scope", "scope_sub", "file", "both"]),
+                   "where": rng.choice(["top", "nested"])}
+
+    def registry(self):
+        fp = self.fp
+        from freephil import tokenizer
+
+        class scaled_converters:
+            phil_type = "scaled"
+
+            def __init__(self, factor=10):
+                self.factor = factor
+
+            def __str__(self):
+                return "scaled" if self.factor == 10 else "scaled(factor=%d)" % self.factor
+
+            def from_words(self, words, master):
+                v = fp.int_from_words(words=words, path=master.full_path())
+                return None if v is None else v * self.factor
+
+            def as_words(self, python_object, master):
+                if python_object is None:
+                    return [tokenizer.word(value="None")]
+                return [tokenizer.word(value=str(python_object // self.factor))]
+
+        class my_int_converters(scaled_converters):
+            phil_type = "int"
+
+            def __init__(self):
+                scaled_converters.__init__(self, factor=1000)
+
+            def __str__(self):
+                return "int"
+
+        return fp.extended_converter_registry(additional_converters=[scaled_converters, my_int_converters])
+
+    def impl(self, case):
+        import importlib
+        import shutil
+        import tempfile
+        fp = self.fp
+        R = self.registry()
+        d = tempfile.mkdtemp(prefix="c13reg_")
+        mod = "c13reg_%d_%d" % (os.getpid(), abs(hash(d)) % 100000)
+        target = "w = 2\n  .type = %s\nsub {\n  v = 4\n    .type = %s\n}\n" % (case["ty"], case["ty"])
+        leaf = "f = 6\n  .type = %s\n" % case["ty"]
+        with open(os.path.join(d, mod + ".py"), "w") as fh:
+            fh.write("phil_str = %r\n" % target)
+        os.mkdir(os.path.join(d, "inc"))
+        with open(os.path.join(d, "inc", "leaf.params"), "w") as fh:
+            fh.write(leaf)
+        lines, inl = [], []
+        if case["via"] in ("scope", "both"):
+            lines.append("include scope %s.phil_str" % mod)
+            inl.append(target)
+        if case["via"] == "scope_sub":
+            lines.append("include scope %s.phil_str sub" % mod)
+            inl.append("sub {\n  v = 4\n    .type = %s\n}\n" % case["ty"])
+        if case["via"] in ("file", "both"):
+            lines.append("include file inc/leaf.params")
+            inl.append(leaf)
+        if case["where"] == "nested":
+            root = "a = 1\n  .type = %s\nouter {\n%s\n}\n" % (case["ty"], "\n".join(lines))
+            inlined = "a = 1\n  .type = %s\nouter {\n%s}\n" % (case["ty"], "".join(inl))
+        else:
+            root = "a = 1\n  .type = %s\n%s\n" % (case["ty"], "\n".join(lines))
+            inlined = "a = 1\n  .type = %s\n%s" % (case["ty"], "".join(inl))
+        with open(os.path.join(d, "root.params"), "w") as fh:
+            fh.write(root)
+        sys.path.insert(0, d)
+        old = os.getcwd()
+        try:
+            os.chdir("/")
+            try:
+                want_t = fp.parse(input_string=inlined, converter_registry=R)
+                want = [want_t.as_str(attributes_level=2), self.values(want_t)]
+            except (RuntimeError, fp.Sorry) as e:
+                return ["inlined-refused", str(e)[:100]]
+            try:
+                got_t = fp.parse(file_name=os.path.join(d, "root.params"), converter_registry=R, process_includes=True)
+                got = [got_t.as_str(attributes_level=2), self.values(got_t)]
+            except (RuntimeError, fp.Sorry) as e:
+                return ["differs", "refused: " + str(e)[:160], want]
+            return ["ok"] if got == want else ["differs", got, want]
+        finally:
+            os.chdir(old)
+            sys.path.remove(d)
+            sys.modules.pop(mod, None)
+            importlib.invalidate_caches()
+            shutil.rmtree(d, ignore_errors=True)
+
+    def values(self, t):
+        out = []
+
+        def walk(e, path):
+            for k, v in sorted(e.__dict__.items()):
+                if k.startswith("__"):
+                    continue
+                if isinstance(v, self.fp.scope_extract):
+                    walk(v, path + k + ".")
+                else:
+                    out.append([path + k, repr(v)])
+        walk(t.extract(), "")
+        return out
+
+    def requests(self, case, o):
+        return []
+
+    def model(self, case, replies, o):
+        return o
+
+    def prop(self, case, o):
+        if o[0] == "differs":
+            return "parsed with a custom converter registry, the expanded document gives %r, the inlined text gives %r" % (o[1], o[2])
+        return None
+
+    def tag(self, case, o):
+        return o[0]
+
+
 SPEC = {
     "clusters": ["Include"],
-    "streams": [Paths, Graphs, Malformed, IncludeScope],
+    "streams": [Paths, Graphs, Malformed, IncludeScope, IncludeRegistry],
     "rule": "paths: all strings over {a,b,.,..,/,//} up to 5 (quick) / 6 (thorough) tokens + random longer ones, x 3 real current "
             "directories; graphs: all 13^3 include graphs over 3 files with 0-2 ordered includes each (thorough: + 30 000 sampled over "
             "4 files with 0-3 includes), placement (top level / scope / nested scope), spelling of the name (relative, ./, detour "
